@@ -159,7 +159,10 @@ def check(rep, tier, seed):
         if rnd.random() < 0.5:
             ops += [(0, rand_text(rnd)) for _ in range(rnd.randrange(1, 4))] + [(1,)]
         scen.append(ops)
-    long_scen = [[(0, "before"), (0, "L" * 70000), (0, "after"), (1,)], [(0, "q" * 65536), (1,), (0, "r"), (1,)]]
+    long_scen = [[(0, "before"), (0, "L" * 70000), (0, "after"), (1,)], [(0, "q" * 65536), (1,), (0, "r"), (1,)],
+                 [(0, "first"), (0, "M" * 1100000), (0, "last"), (1,)], [(0, "\x01\x02" * 100000), (0, "end"), (1,)]]
+    if tier != "quick":
+        long_scen += [[(0, "a"), (0, "G" * (1 << 23)), (0, "z"), (1,)]]
     scen += long_scen
     # crash scenarios: pass 1 to learn the record length, then every offset
     bases = []
